@@ -244,7 +244,24 @@ def run(facts, R):
             ok = False
             det = render(disp)[:160]
             if is_call(disp, "server::wrap_with_middlewares"):
+                def _core(e_):
+                    while e_[0] == "call" and e_[1].rsplit("::", 1)[-1] == "clone" and len(e_[2]) == 1:
+                        e_ = e_[2][0]
+                    return e_
                 ok = disp[2][0] == raw and render(disp[2][1]).endswith("middlewares")
+                if ok and getattr(b, "changed", True):
+                    # ... and it is the list as it will stand: a store to self.middlewares in the same function comes before the wrap
+                    ms_ = [w_ for w_ in field_writes(facts, "server::Router", "middlewares") if w_["body"] is b and w_["kind"] in ("store", "call-dest")]
+                    ok = all(b.dominates(w_["bb"], i) for w_ in ms_)
+                    if not ok:
+                        det = "wrapped in the list as it was before this function replaced it: " + det
+                if not ok and getattr(b, "changed", True) and _core(disp[2][0]) == _core(raw):
+                    # a chain assembled in this function (a merge of two routers' lists) is the router's own list when it is what the
+                    # function stores into self.middlewares on every way out: entries and list are replaced together
+                    bs_ = Sym(b)
+                    st_ = [(w_["bb"], w_["idx"]) for w_ in field_writes(facts, "server::Router", "middlewares") if w_["body"] is b and w_["kind"] == "store"
+                           and _core(bs_.rvalue(w_["rv"])) == _core(disp[2][1])]
+                    ok = bool(st_) and must_cross(b, [(i, j)], return_points(b), st_, after_start=False) is None
                 if not ok and raw in disp[2]:
                     # the wrapper as a method of the router (`self.wrap(raw)`): the chain it applies is the router's own list,
                     # read inside the wrapper
@@ -302,8 +319,12 @@ def run(facts, R):
     gs = Sym(gt)
     rows = value_rows(gt, gs, facts, 0)
     for g, v in rows:
-        if v.startswith("Option::None") or (v.startswith("Option::map(") and "{closure#" in v):
+        import re as _re
+        if v.startswith("Option::None") or (_re.match(r"^Option::map[#\d]*\(", v) and "{closure#" in v):
             continue
+        m_ = _re.match(r"^Option::Some\{0: \((Option::map[#\d]*\(.*\{closure#\d+\}\{[^}]*\}\)) as Some\)\.0\}$", v)
+        if m_:
+            continue   # `Some(x)` behind `match opt.map(closure) { Some(x) => ..}`: the value is the closure's (judged below)
         if v.startswith("Option::map") and "or_else" in v and "fn:" in v:
             continue   # combinator chain: the closures below decide what is handed out
         R.check("dispatched" in v and ".raw" not in v, "rebuild-covers-all", gt.path, "get returns only dispatched", "Router::get can return %s" % v[:160], gt.span, v[:100])
